@@ -369,6 +369,17 @@ def check(program: Program, run: Run) -> None:
         if isinstance(s, ast.NamedExpr) and isinstance(s.target, ast.Name):
             src_text[s.target.id] = s.value
 
+    # a set grown in place at the top level of the method (`s = set(a); s.update(b); s.add(c)`, `s |= d`) is the union
+    for st in jv.node.body:
+        if (isinstance(st, ast.Expr) and isinstance(st.value, ast.Call) and isinstance(st.value.func, ast.Attribute) and st.value.func.attr in ("update", "add")
+                and isinstance(st.value.func.value, ast.Name) and st.value.func.value.id in src_text and st.value.args and not st.value.keywords):
+            nm = st.value.func.value.id
+            for a in st.value.args:
+                piece = ast.Set(elts=[a]) if st.value.func.attr == "add" else ast.Call(func=ast.Name(id="set", ctx=ast.Load()), args=[a], keywords=[])
+                src_text[nm] = ast.fix_missing_locations(ast.copy_location(ast.BinOp(left=src_text[nm], op=ast.BitOr(), right=piece), st))
+        elif isinstance(st, ast.AugAssign) and isinstance(st.op, ast.BitOr) and isinstance(st.target, ast.Name) and st.target.id in src_text:
+            src_text[st.target.id] = ast.fix_missing_locations(ast.copy_location(ast.BinOp(left=src_text[st.target.id], op=ast.BitOr(), right=st.value), st))
+
     def expand_all(e, depth=0):
         """substitute local single-assignment names by their defining expressions (names are not relied upon)"""
         if depth > 6:
